@@ -10,8 +10,7 @@ RULE = ('random ragged arrays (1..6 rows, lengths 1..6, 30% equal-length, 1-D an
 ASSUMPTIONS = ['numpy basic/fancy indexing of 1-D arrays and Python list indexing are the reference semantics of the '
                'list-of-rows oracle (Model.PySlice is tied to CPython slice.indices exhaustively each run)',
                'cells are atomic: the model is parametric in the cell type, cell ids stand for cell values',
-               'Model.Ragged has two variants of the 2-D index arithmetic (tree as found / with the proposed repair); seven '
-               'probe reads announce which one the staged code is compared with, every case then checks that announcement']
+               'the staged code is compared with the repaired variant of Model.Ragged (getItemV true) on every case']
 TRUSTED_EXTRA = ['the Python list-of-rows oracle in harness/props/c05.py (about 60 lines, numpy indexing of 1-D arrays only)']
 
 STEPS = [None, 1, 2, 3, -1, -2, -3]
@@ -370,7 +369,8 @@ def rand_array(rng):
 
 
 # ----------------------------------------------------------------------------------------------
-# known-finding classes (input classes of the unchanged code; see known_findings.d/C05.json)
+# input classes the tree got wrong before the repair (fix: commit applying C05-ra-reads.diff); now tags only,
+# so that the evidence shows these regions are exercised
 
 K_ROWSTEP = 'getitem-2d-row-slice-negative-step'
 K_ROWOOR = 'getitem-2d-row-slice-bound-out-of-range'
@@ -468,34 +468,29 @@ def strip(idx):
     return {k: v for k, v in idx.items() if k != 'np'}
 
 
-VARIANT = {'fixed': None}
-
-
-def detect_variant(ctx):
-    """Model.Ragged has two variants of the index arithmetic: the tree as found (hand arithmetic in
-    _slice_to_list/_get_iis_from_slices, empty selections fail) and the repaired one (slice.indices, empty
-    selections are built).  A handful of reads the two variants answer differently announce which one the
-    staged code is compared with; the announcement is then checked on every case like any other output."""
+def probe_repaired(ctx):
+    """Reads the tree before the repair got wrong (one per former finding class).  The staged code is held to the
+    repaired model variant (`getItemV true`) without exception: a probe that no longer behaves like the list of rows
+    is a regression and is reported as a violation like any other wrong read (no key, never excused)."""
     a = {'lengths': [3, 2], 'width': 0, 'dtype': 'int', 'ctor': 'flat-lengths-array'}
+    d = {'lengths': [2, 2], 'width': 2, 'dtype': 'int', 'ctor': 'flat-lengths-array'}
     full = S([None, None, None])
-    probes = [T(full, S([-1, None, None])), T(S([None, None, -1]), full), T(S([0, 5, None]), I(0)),
-              T(S([0, 0, None]), full), T(full, S([2, None, None])), T(I(0), Lst([])),
-              {'t': 'mask', 'v': [[False] * 3, [False] * 2]}]
-    impl = Impl(a)
-    good = 0
-    for idx in probes:
-        o = run_oracle_rows(impl.rows, 'get', idx)
-        i = impl.run('get', idx)
-        good += int('ok' in i and i['ok'] == o.get('ok'))
-    fixed = good == len(probes)
-    VARIANT['fixed'] = fixed
-    ctx.note('code_variant', {'announced': 'repaired' if fixed else 'as-found',
-                              'probes_like_list_of_rows': good, 'probes': len(probes)})
-    ctx.tag('variant=' + ('repaired' if fixed else 'as-found'))
+    probes = [(a, 'get', T(full, S([-1, None, None]))), (a, 'get', T(S([None, None, -1]), full)),
+              (a, 'get', T(S([0, 5, None]), I(0))), (a, 'get', T(S([0, 0, None]), full)),
+              (a, 'get', T(full, S([2, None, None]))), (a, 'get', T(I(0), Lst([]))),
+              (a, 'get', {'t': 'mask', 'v': [[False] * 3, [False] * 2]}),
+              (d, 'iter', None), (d, 'get', T(full, S([0, 1, None])))]
+    before = len(ctx.violations)
+    for arr, op, idx in probes:
+        resp = ctx.driver([model_request(arr, op, idx)])[0]
+        judge(ctx, Impl(arr), op, idx, resp)
+    ctx.tag('regression-probe', len(probes))
+    ctx.note('code_variant', {'held_to': 'repaired (getItemV true)', 'probes': len(probes),
+                              'probes_failing': len(ctx.violations) - before})
 
 
 def model_request(arr, op, idx):
-    return {'op': 'C05.' + op, 'lengths': arr['lengths'], 'fast': is_fast(arr), 'fixed': bool(VARIANT['fixed']),
+    return {'op': 'C05.' + op, 'lengths': arr['lengths'], 'fast': is_fast(arr), 'fixed': True,
             'ctor': 'rows' if arr['ctor'].startswith('nested') else 'flat', 'idx': strip(idx)}
 
 
@@ -649,7 +644,7 @@ def judge(ctx, impl, op, idx, mresp, record=True):
         if 'error' in i:
             tags.append('impl-' + i['error'])
         for k in keys:
-            tags.append('class:' + k)
+            tags.append('formerly-failing-class:' + k)
         ctx.case(case, nontrivial=nontrivial, tags=tags)
     else:
         ctx.evaluations += 1
@@ -658,18 +653,13 @@ def judge(ctx, impl, op, idx, mresp, record=True):
             what = 'access outside a row/array returned %r instead of raising' % (i,)
         else:
             what = 'read differs from the same read on the list of rows: got %r, expected %r' % (i, o['ok'])
-        # the classes are findings of the tree as found; once the repaired variant is announced nothing is excused
-        key = keys[0] if keys and not VARIANT['fixed'] else None
-        ctx.violation(what[:600], dict(case, got=i, expected=o), key=key)
-    # correspondence with the model (cells are atomic in the model: skip the multi-dimensional
-    # rectangular fast path, where numpy's reshape cuts cells apart)
-    if K_RECT in keys and not holds:
-        ctx.skip('model comparison skipped: ' + K_RECT)
-        return
+        # nothing is excused: the input classes the pre-fix tree got wrong are tags only
+        ctx.violation(what[:600], dict(case, got=i, expected=o), key=None)
+    # correspondence with the model (repaired variant)
     m = model_canon(arr, op, idx, mresp, impl.flat)
     ii = {k: v for k, v in i.items() if k != 'exc'}
     if m != ii:
-        if holds or (keys and not VARIANT['fixed']):
+        if holds:
             ctx.disagreement('Model.Ragged vs RaggedArray (%s)' % op, dict(case, model=m, impl=i))
         # a violation outside the known classes has already been reported
 
@@ -710,7 +700,7 @@ FIXED_OPS = [('iter', None), ('flatten', None), ('attrs', None)]
 
 def run(ctx):
     rng = ctx.rng
-    detect_variant(ctx)
+    probe_repaired(ctx)
     slice_scope(ctx)
     # random arrays x random index expressions
     batch = []
@@ -759,7 +749,5 @@ def replay(ctx, data):
             ctx.disagreement('Model.PySlice.indices vs CPython slice.indices', data)
         return
     arr, op, idx = data['arr'], data['op'], data.get('idx')
-    if VARIANT['fixed'] is None:
-        detect_variant(ctx)
     resp = ctx.driver([model_request(arr, op, idx)])[0]
     judge(ctx, Impl(arr), op, idx, resp)
